@@ -142,12 +142,16 @@ func drawSpec(t *rapid.T, kinds []string) spec {
 		Gen:    rapid.SampledFrom([]string{"std", "rnd"}).Draw(t, "gen"),
 	}
 	switch s.Kind {
+	// arities: mostly small, with a tail of larger ones (Gennaro composes one proof per coefficient,
+	// i.e. arity = threshold; worker-pool / block-splitting code paths only differ past 4)
 	case "batch-schnorr":
-		s.N = rapid.IntRange(2, 4).Draw(t, "k")
-	case "okamoto", "and^n(S)", "and^n(O)":
-		s.N = rapid.IntRange(1, 3).Draw(t, "n")
+		s.N = rapid.SampledFrom([]int{2, 2, 3, 3, 4, 4, 5, 7, 9}).Draw(t, "k")
+	case "okamoto":
+		s.N = rapid.SampledFrom([]int{1, 1, 2, 2, 3, 3, 4, 5}).Draw(t, "n")
+	case "and^n(S)", "and^n(O)":
+		s.N = rapid.SampledFrom([]int{1, 2, 2, 3, 3, 4, 5, 6, 7, 9}).Draw(t, "n")
 	case "or^n(S)":
-		s.N = rapid.IntRange(2, 3).Draw(t, "n")
+		s.N = rapid.SampledFrom([]int{2, 2, 3, 3, 4, 5, 6}).Draw(t, "n")
 	default:
 		s.N = 2
 	}
